@@ -19,7 +19,7 @@ import struct
 
 from lib import ahab_rom as AR
 from lib import tlc
-from lib.common import ROOT, Machinery, import_spsdk, rng, say, scratch, sha
+from lib.common import ROOT, Machinery, import_spsdk, rng, say, scratch
 from lib.par import pmap
 from lib.verdict import Verdict
 
@@ -238,7 +238,6 @@ def build(case):
         # SPSDK exported an input the format forbids (reported through the export trace); its verifier at least has to report the parsed file
         out["traces"].append({"id": f"{case['id']}/invalid", "kind": "invalid", "cls": cls, "fcls": "revoked" if not case.get("refuse") else "collision",
                               "exp": exp, "ev": [{"ev": "InvalidExported"}, dict(verdict, ev="SpsdkTamperVerdict")]})
-    out["data_sha"] = sha(data.hex())
     # ---- history: update again, export again; parse, update, export
     if case.get("history"):
         try:
@@ -461,7 +460,7 @@ def layout_case(row, fams, k, cid):
 def tamper_cases(fams, tier, base):
     """Cases whose exports are tampered with: between them they contain every field class of the tour."""
     r = rng(PROP, "tamper-cases")
-    n_per = 3 if tier == "quick" else 24
+    n_per = 3 if tier == "quick" else 40
     out = []
     specs = [(1, "ecc256", True, True), (1, "rsa2048", False, False), (1, "ecc521", False, True), (2, "ecc384", True, True)]
     if tier != "quick":
@@ -472,7 +471,7 @@ def tamper_cases(fams, tier, base):
         if k % 2 == 1:
             case["cont"][-1]["img"][1]["isa"] = 0x300  # every other host carries a size-extended plain image
         case["memory"] = "standard"
-        case.update(tamper=n_per, tamper_walks=1 if tier == "quick" else 4, origin="tamper")
+        case.update(tamper=n_per, tamper_walks=1 if tier == "quick" else 8, origin="tamper")
         out.append(case)
     return out
 
@@ -565,10 +564,14 @@ def decide(v, traces, cases_by_id, stats):
             if evname == "VerifySignature" and clause == "relation" and (ev.get("key", 0) < 4 and (t["exp"]["cont"][ev.get("ci", 0)]["revoke"] >> ev.get("key", 0)) & 1):
                 clause = "revoked-key-exported"
             kcls = t["cls"]
-            if evname == "ImageEntry" and case is not None:  # the class of the image concerned, not of the whole case
+            if case is not None and "ci" in ev:  # the class of the image / container concerned, not of the whole case
                 try:
-                    im = case["cont"][ev["ci"]]["img"][ev["i"]]
-                    kcls = f"v{case['cver']}+" + ("enc" if im["enc"] else "plain") + ("+size-ext" if im.get("isa") else "")
+                    co = case["cont"][ev["ci"]]
+                    if evname == "ImageEntry":
+                        im = co["img"][ev["i"]]
+                        kcls = f"v{case['cver']}+" + ("enc" if im["enc"] else "plain") + ("+size-ext" if im.get("isa") else "")
+                    else:
+                        kcls = f"v{case['cver']}+" + (co["kt"] if co["srk_set"] != "none" else "unsigned") + ("+blob" if co.get("blob") else "")
                 except (IndexError, KeyError):
                     pass
             v.violation(f"C06/rom/{evname}/{clause}/{kcls}",
@@ -604,6 +607,22 @@ def decide_layout(v, lays, cases_by_id, stats):
 CANARY = os.path.join(ROOT, "anchors", "C06", "canary.json")
 
 
+def anchor_selftest():
+    """Frozen format fact that no offline document states: the AES-CBC IV of an encrypted image is the LAST 16 bytes of the 32-byte
+    IV field (= SHA-256 of the plain image).  Anchored on a golden container of the pinned commit (copied from
+    tests/nxpimage/data/ahab/cntr_encrypted_ctcm_cm33.bin, DEK 00 01 .. 0f from its configuration)."""
+    import hashlib
+
+    path = os.path.join(ROOT, "anchors", "C06", "cntr_encrypted_ctcm_cm33.bin")
+    d = open(path, "rb").read()
+    c = 0x400
+    off, size = struct.unpack_from("<II", d, c + 16)
+    iv = d[c + 16 + 96:c + 16 + 128]
+    plain = AR.aes_cbc_dec(bytes(range(16)), iv[16:], d[c + off:c + off + size])
+    if d[c + 3] != AR.TAG_CONT or hashlib.sha256(plain).digest() != iv:
+        raise Machinery("anchor self-test failed: the golden encrypted container does not decrypt to data whose SHA-256 is its IV field")
+
+
 def load_canary(host):
     """Frozen known-good traces; recorded from `host` when the anchor does not exist yet (first run on the unchanged tree)."""
     if not os.path.exists(CANARY):
@@ -629,7 +648,8 @@ ASSUMPTIONS = [
     "the signature header are not authenticated bytes; in a container that is not signed only image bytes and their digests are",
     "tamper: SPSDK's verifier is not run on corrupted files that declare an image of more than 8 MiB (it allocates and hashes that many bytes)",
     "RSA signatures are RSASSA-PSS / MGF1 with the hash of the SRK record, any salt length; the SRK hash is SHA-256 (version 1) / SHA-512 "
-    "(version 2) over the SRK table as exported",
+    "(version 2) over the SRK table as exported; the AES-CBC IV is the last 16 bytes of the IV field (anchored on a golden container, anchors/C06)",
+    "SPSDK is observed through its Python API (AHABImage.load_from_config / update_fields / export / parse / verify / pre_parse_verify), not through the nxpimage CLI",
 ]
 
 
@@ -637,6 +657,7 @@ def run(tier):
     import_spsdk()
     v = Verdict(PROP, tier)
     quick = tier == "quick"
+    anchor_selftest()
     fams = families()
     if not fams:
         raise Machinery("no AHAB family in the database")
@@ -653,7 +674,7 @@ def run(tier):
     for x in rows:
         if x["cls"] != "none":
             tour.setdefault(x["cls"], set()).add(x["verdict"])
-    if len(auth_rows) < 200 or not tour:
+    if len(auth_rows) < 150 or not tour:
         raise Machinery(f"AhabRomMC emitted {len(auth_rows)} untampered rows and {len(tour)} region classes")
     mixed = [c for c, vs in tour.items() if len(vs) != 1]
     if mixed:
@@ -680,7 +701,7 @@ def run(tier):
         cases.append(auth_case(row, fams, k, len(cases)))
     for k, row in enumerate(lay_rows):
         cases.append(layout_case(row, fams, k, len(cases)))
-    n_random = 100 if quick else 1500
+    n_random = 100 if quick else 2000
     for k in range(n_random):
         cases.append(random_case(r, fams, len(cases), history=(k % 4 == 0), origin="random"))
     tc = tamper_cases(fams, tier, len(cases))
